@@ -130,7 +130,10 @@ func genCastValue(rt *rapid.T, src, dst tensor.Dtype) reflect.Value {
 	case 0:
 		x = rapid.Int64Range(-9, 9).Draw(rt, "small")
 	case 1:
-		x = rapid.SampledFrom([]int64{sl, sh, sl + 1, sh - 1, 1 << 24, 1<<24 + 1, 1 << 53, 1<<53 + 1, 1<<62 + 1, -(1<<24 + 1), -(1<<53 + 1), 127, 128, 255, 256, 32767, 32768, 65535, 65536}).Draw(rt, "edge")
+		x = rapid.SampledFrom([]int64{sl, sh, sl + 1, sh - 1, 1 << 24, 1<<24 + 1, 1 << 53, 1<<53 + 1, 1<<62 + 1, -(1<<24 + 1), -(1<<53 + 1), 127, 128, 255, 256, 32767, 32768, 65535, 65536,
+			// just above a float32 rounding midpoint by less than a float64 ulp: converting through
+			// float64 first lands exactly on the midpoint and rounds the other way (double rounding)
+			1<<60 + 1<<36 + 1, 1<<61 + 1<<37 + 1, 1<<55 + 1<<31 + 1, -(1<<60 + 1<<36 + 1), 1<<60 + 3<<36 - 1, 1<<58 + 1<<34 + 1}).Draw(rt, "edge")
 	default:
 		x = rapid.Int64Range(sl, sh).Draw(rt, "any")
 	}
@@ -217,13 +220,16 @@ func c11Gen(rt *rapid.T) c11Case {
 		switch form {
 		case "value":
 			dt := rapid.SampledFrom(c12Dtypes).Draw(rt, "dtype")
-			shape := genShape(0, 3, 4, 600).Draw(rt, "shape")
+			shape := genShape(0, 3, 4, 1500).Draw(rt, "shape")
 			backing := genBits(dt, prod(shape)).Draw(rt, "values")
 			typed := rapid.Bool().Draw(rt, "typed")
 			if dt == tensor.Uint64 && !typed && !kfOpen("KF-C12-raw-uint64") {
 				// nothing to avoid once repaired
 			}
 			c.node = mkNode("Constant", nil, []string{"y"}, attrT("value", encodeTensor("c", shape, backing, typed)))
+			// node names are optional and often generated ("Constant_0"): the same name recurs in
+			// unrelated models of one process
+			c.node.Name = rapid.SampledFrom([]string{"", "", "Constant_0", "Constant_1", "c"}).Draw(rt, "nodeName")
 			c.want = mkT(shape, backing)
 			c.feature = fmt.Sprintf("value-%v-typed=%v", dt, typed)
 		case "value_float":
